@@ -210,6 +210,8 @@ pub enum VOp {
     TryReserveExact(usize),
     ShrinkToFit,
     CloneSwap,
+    /// `v.clone_from(&other)` with `other` built from the keys (shorter, equal or longer than `v`)
+    CloneFrom(Vec<u32>),
     IntoIter(usize, usize, bool),
     /// into_iter consumed through nth / skip / step_by (skipped elements must still be dropped)
     IntoIterSkip(u8, usize),
@@ -267,6 +269,7 @@ impl VOp {
             VOp::TryReserveExact(..) => "try_reserve_exact",
             VOp::ShrinkToFit => "shrink_to_fit",
             VOp::CloneSwap => "clone",
+            VOp::CloneFrom(..) => "clone_from",
             VOp::IntoIter(..) => "into_iter",
             VOp::IntoIterSkip(..) => "into_iter-nth-skip-step_by",
             VOp::IntoBumpSlice(..) => "into_bump_slice",
@@ -596,6 +599,11 @@ pub fn apply_b<'b, T: El>(b: &'b Bump, v: &mut BVec<'b, T>, op: &VOp, kept: &mut
             let old = std::mem::replace(v, c);
             drop(old);
             Res::Unit
+        }
+        VOp::CloneFrom(ks) => {
+            let other: BVec<'b, T> = BVec::from_iter_in(kiter::<T>(ks, true), b);
+            v.clone_from(&other);
+            Res::Keys(keys_of(&other))
         }
         VOp::IntoIter(front, back, keep) => {
             let old = std::mem::replace(v, BVec::new_in(b));
@@ -1009,6 +1017,11 @@ pub fn apply_s<T: El>(v: &mut Vec<T>, op: &VOp, sboxes: &mut Vec<Box<[T]>>) -> R
             drop(old);
             Res::Unit
         }
+        VOp::CloneFrom(ks) => {
+            let other: Vec<T> = kiter::<T>(ks, true).collect();
+            v.clone_from(&other);
+            Res::Keys(keys_of(&other))
+        }
         VOp::IntoIter(front, back, keep) => {
             let old = std::mem::take(v);
             let mut it = old.into_iter();
@@ -1317,7 +1330,13 @@ pub fn gen_op<T: El>(rng: &mut Rng, len: usize) -> VOp {
             }
         }
         48 => VOp::ShrinkToFit,
-        49 => VOp::CloneSwap,
+        49 => {
+            if rng.chance(1, 2) {
+                VOp::CloneSwap
+            } else {
+                VOp::CloneFrom(gen_keys(rng, len + 4))
+            }
+        }
         50..=51 => {
             if rng.chance(1, 3) {
                 VOp::IntoIterSkip(rng.below(4) as u8, rng.below(4))
